@@ -54,7 +54,7 @@ LogicalBase(k) == CASE k = "class" -> 32 [] k = "inst" -> 36 [] k = "elem" -> 40
 EncSeg(g) ==
   IF g.k = "sym" THEN PadEven(<<145, Len(g.s)>> \o g.s)
   ELSE IF g.k = "port" THEN
-         (IF g.p < 15 THEN <<g.p, g.l>> ELSE <<15>> \o U16(g.p) \o <<g.l>>)        \* NOTE: extended port: pad to even
+         (IF g.p < 15 THEN <<g.p, g.l>> ELSE <<15>> \o U16(g.p) \o <<g.l>>)        \* extended port; padded to even below
   ELSE IF g.k = "porta" THEN
          PadEven((IF g.p < 15 THEN <<16 + g.p, Len(g.a)>> ELSE <<31, Len(g.a)>> \o U16(g.p)) \o g.a)
   ELSE IF g.v < 256 THEN <<LogicalBase(g.k), g.v>>
@@ -112,4 +112,39 @@ MSPOffsetLaw(msgs) ==
    LET n == Len(msgs)  offs == MSPOffsets(msgs, 2 + 2 * n)
    IN /\ (n > 0 => offs[1] = 2 + 2 * n)
       /\ \A i \in 1 .. (n - 1) : offs[i + 1] = offs[i] + Len(msgs[i])
+
+----------------------------------------------------------------------------
+(* Part 2: encapsulation, Common Packet Format, Unconnected Send.           *)
+(* Session handles and sender contexts are octet strings (4 and 8 octets).  *)
+
+EncEnip(cmd, sess, status, ctx, options, payload) ==
+   U16(cmd) \o U16(Len(payload)) \o sess \o U32(status) \o ctx \o U32(options) \o payload
+
+CmdRegister == 101   CmdUnregister == 102   CmdSendRR == 111   CmdSendUnit == 112
+CmdListServices == 4   CmdListIdentity == 99   CmdListInterfaces == 100   CmdLegacy == 1
+
+RegisterPayload == U16(1) \o U16(0)            \* protocol version 1, options 0
+
+\* CPF: item count, then items [type, length, data]
+EncCPFItem(ty, data) == U16(ty) \o U16(Len(data)) \o data
+EncCPF(items) == U16(Len(items)) \o Concat(items)
+NullAddr == EncCPFItem(0, <<>>)
+UnconnData(msg) == EncCPFItem(178, msg)                          \* 0x00B2
+ConnAddr(cid) == EncCPFItem(161, cid)                            \* 0x00A1, 4-octet connection id
+ConnData(seq, msg) == EncCPFItem(177, U16(seq) \o msg)           \* 0x00B1
+
+\* SendRRData / SendUnitData body: interface handle (0), timeout, CPF
+EncSendData(timeout, items) == U32(0) \o U16(timeout) \o EncCPF(items)
+
+\* Unconnected Send (service 0x52 to the Connection Manager 6/1): priority/tick, ticks, message size, message,
+\* pad to even, route path size in words, reserved, route path
+CMPath == << [k |-> "class", v |-> 6], [k |-> "inst", v |-> 1] >>
+EncUnconnectedSend(prio, ticks, msg, route) ==
+   <<82>> \o EncEPATH(CMPath) \o <<prio, ticks>> \o U16(Len(msg)) \o PadEven(msg) \o EncEPATHpad(route)
+
+\* A complete SendRRData request frame carrying CIP message `msg': bare ("simple") or wrapped with a route path
+RRFrame(sess, ctx, timeout, cip) == EncEnip(CmdSendRR, sess, 0, ctx, 0, EncSendData(timeout, <<NullAddr, UnconnData(cip)>>))
+
+\* total length of the frame starting at offset `at' (0-based) of an octet stream, if its header is complete
+FrameLen(stream, at) == 24 + LE(SubSeq(stream, at + 3, at + 4))
 =============================================================================
